@@ -144,12 +144,69 @@ def law_sweep(ctx, sc):
                 if not abs(fn(s * pr, s * t) - a) <= 1e-9 * (1 + abs(a)):
                     bad(f"score:{fn.__name__}-scale", f"{fn.__name__} changes when prediction and truth are scaled by {s}", {"law": "scale", "truth": t[:5].tolist(), "s": s})
             nev += 4 * t.size
+    # large samples (every size class up to 10^4, sizes around powers of two and just past them): exhaustive search is
+    # quadratic, so the candidates are the sample points at ranks around a tau-quantile; the mean loss is convex and
+    # piecewise linear in c, so a tau-quantile q that does not minimise it is beaten by a neighbour in rank
+    sizes = [1000, 1023, 1025, 2049, 4095, 4096, 4097, 5000, 8191, 8193, 9999, 10000]
+    for k, n in enumerate(sizes if ctx.thorough else sizes[k0(ctx)::2]):
+        for kind in range(4):
+            y = rng.normal(size=n) if kind == 0 else (rng.standard_cauchy(n) if kind == 1 else
+                                                      (rng.integers(0, 40, n).astype(float) if kind == 2 else rng.exponential(size=n)))
+            tau = float(rng.choice([0.05, 0.25, 0.5, 0.75, 0.95, rng.uniform(0.01, 0.99)]))
+            ys = np.sort(y)
+            r = min(n - 1, max(0, int(np.ceil(tau * n)) - 1))
+            q = ys[r]
+            lo, hi = np.sum(y < q), np.sum(y <= q)
+            if not (lo <= tau * n and tau * n <= hi):
+                continue
+            ranks = sorted({min(n - 1, max(0, r + d)) for d in (-2000, -500, -50, -5, -1, 1, 5, 50, 500, 2000)})
+            lq = float(sc.mean_quantile_score(np.full((n, 1), q), y, [tau])[0])
+            nev += n * (len(ranks) + 1)
+            for rr in ranks:
+                c = ys[rr]
+                lc = float(sc.mean_quantile_score(np.full((n, 1), c), y, [tau])[0])
+                if lc < lq - 1e-9 * (1 + abs(lq)):
+                    bad("quantile-minimises", f"n={n}: the {tau}-quantile {q!r} of the sample has mean_quantile_score {lq!r}, the constant "
+                        f"{c!r} (rank {rr}, the quantile has rank {r}) has {lc!r} < it",
+                        {"law": "quantile-minimises-large", "n": n, "kind": kind, "tau": tau, "c": float(c), "q": float(q)})
+                    break
     return out, nev
+
+
+def k0(ctx):
+    return ctx.seed % 2
+
+
+MQS_BODY = "np.nanmean(quantile_score(y_tau, y_test, taus), axis=0)"
+
+
+def mean_wrapper_tied(ctx):
+    """mean_quantile_score is modelled as `mean_loss` = the arithmetic mean of the translated kernel over the sample
+    (Model/C19_scores.v).  The tie is structural and fail-closed: the body of the function in the tree under test must be
+    exactly `return np.nanmean(quantile_score(y_tau, y_test, taus), axis=0)`; any other text breaks the obligation
+    (the law sweep below then searches for a failing input on samples of every size class)."""
+    import ast
+    try:
+        tree = ast.parse((core.REPO / "typhon/retrieval/scores.py").read_text())
+        fn = next(n for n in tree.body if isinstance(n, ast.FunctionDef) and n.name == "mean_quantile_score")
+        body = [b for b in fn.body if not (isinstance(b, ast.Expr) and isinstance(b.value, ast.Constant))]
+        ok = (len(body) == 1 and isinstance(body[0], ast.Return)
+              and ast.dump(body[0].value) == ast.dump(ast.parse(MQS_BODY, mode="eval").body)
+              and [a.arg for a in fn.args.args] == ["y_tau", "y_test", "taus"])
+        why = "" if ok else "body is " + "; ".join(ast.unparse(b) for b in body)[:200]
+    except Exception as e:  # noqa
+        ok, why = False, repr(e)
+    ctx.add_obligation("translation:scores.mean_quantile_score = nanmean(kernel) over the sample", ok, why)
+    if not ok:
+        ctx.fail("translation", "mean_quantile_score is no longer `" + MQS_BODY + "` (" + why + "): the model's mean_loss "
+                 "is not tied to it any more", obligation="scores.mean_quantile_score", signature="translation:mean_quantile_score")
+    return ok
 
 
 def run(ctx):
     from typhon.retrieval import scores as sc
     missing = encl.translate(ctx, ["scores"], NEEDED)
+    mean_wrapper_tied(ctx)
     ctx.prove("Props/C19.v")
     if not missing:
         ok, log, _ = core.coq_build([core.THEORIES / "Model" / "C19_scores.v"])
